@@ -44,6 +44,8 @@ func (o Op) String() string {
 		return "wtx" + string(b)
 	case "ckpt":
 		return fmt.Sprintf("ckpt(%s,%d)", o.Mode, o.Max)
+	case "leave-wal":
+		return "leave-wal(" + o.Mode + ")"
 	}
 	return o.Kind
 }
@@ -202,6 +204,8 @@ func (r *runner) run() {
 			ok = r.ckpt(op.Mode, op.Max)
 		case "recover":
 			ok = r.recoverStore()
+		case "leave-wal":
+			ok = r.leaveWAL(op.Mode)
 		case "restart":
 			ok = r.restart()
 		}
@@ -465,6 +469,21 @@ func (r *runner) ckpt(mode string, max uint32) bool {
 		return false
 	}
 	return r.afterOp(what, before, r.img, false, false, false, err, "checkpoint")
+}
+
+// leaveWAL switches a WAL database back to a rollback-journal mode the way SQLite does: close the log
+// (checkpoint, unlink), then one rollback-journal transaction that rewrites page 1.
+func (r *runner) leaveWAL(final string) bool {
+	before := r.pos()
+	var err error
+	r.a.Close()
+	if !r.guarded("leave-wal", func() { err = r.b.LeaveWAL() }) {
+		return false
+	}
+	if !r.afterOp("leave-wal-close", before, r.img, false, false, false, err, "close wal") {
+		return false
+	}
+	return r.rtx(pager.RTx{FromWAL: true, Final: final, Outcome: "commit"}, false)
 }
 
 func (r *runner) recoverStore() bool {
